@@ -49,6 +49,7 @@ func gen(t *rapid.T) Case {
 	}
 	n := rapid.IntRange(1, 4).Draw(t, "n")
 	c := peng.Case{N: n, CloseCheck: true}
+	c.Jitter = peng.GenJitter(t)
 	c.Mgrs = []scen.MgrOpts{{
 		SendBuffer:    rapid.SampledFrom([]uint{0, 0, 1, 4, 16}).Draw(t, "sendBuffer"),
 		WithBlock:     rapid.Bool().Draw(t, "withBlock"),
